@@ -24,6 +24,22 @@ ASSUMPTIONS = [
 ]
 
 
+# the tolerance argument of the clean calls: the default, or an explicit legal value (0 asks for exact removals only)
+TOLS = st.sampled_from(["default", "default", "default", "zero-int", "zero-frac", "zero-float", "tiny", "kw-zero"])
+
+
+def call_clean(curve, name, tol):
+    fn = getattr(curve, name)
+    if tol in (None, "default"):
+        return fn()
+    if tol == "kw-zero":
+        return fn(tolerance=0)
+    val = {"zero-int": 0, "zero-frac": F(0), "zero-float": 0.0, "tiny": F(1, 10 ** 30)}[tol]
+    if name == "knot_clean":
+        return fn(None, val)
+    return fn(val)
+
+
 @st.composite
 def history_cases(draw):
     c = draw(gen.curves(0, 3, 3, nums=("frac",), rational=False))
@@ -35,7 +51,7 @@ def history_cases(draw):
         else:
             steps.append(("elevate", draw(st.sampled_from([1, 1, 2]))))
     cleans = draw(st.lists(st.sampled_from(["knot_clean", "degree_clean", "clean"]), min_size=1, max_size=4))
-    return {"curve": c, "steps": steps, "cleans": cleans}
+    return {"curve": c, "steps": steps, "cleans": cleans, "tol": draw(TOLS)}
 
 
 def resolve_nodes(sels, U, p):
@@ -76,22 +92,25 @@ def degree_reducible(st_):
     return oracle.in_space(st_, newU, st_.p - 1)
 
 
-def run_cleans(curve, ref, cleans, out, klass, minimal=None):
+def run_cleans(curve, ref, cleans, out, klass, minimal=None, tol=None):
     """Shared: run the clean calls, check function / idempotence / minimality."""
     lossy = False
+    if tol not in (None, "default"):
+        out.cls("tolerance=" + tol)
+        klass += ";explicit-tolerance"
     for name in cleans:
-        getattr(curve, name)()
+        call_clean(curve, name, tol)
         after = lib.state_of(curve)
         wit = oracle.same_function(ref, after)
         if wit is not None:
-            if ref.w is None and after.w is None and sq_integral(ref, after) <= F(1, 10 ** 6):
+            if tol in (None, "default") and ref.w is None and after.w is None and sq_integral(ref, after) <= F(1, 10 ** 6):
                 lossy = True
                 out.exclude("tolerance-accepted-inexact-removal")
                 return None
             out.fail("function-changed", klass,
                      f"{name}() changed the curve U={ref.U} P={ref.P} w={ref.w}: at u={wit[0]} {wit[1]} -> {wit[2]} (now U={after.U})")
             return None
-        getattr(curve, name)()
+        call_clean(curve, name, tol)
         again = lib.state_of(curve)
         if again.key() != after.key():
             out.fail("not-idempotent", klass, f"second {name}() changed U={after.U} to {again.U}")
@@ -122,15 +141,17 @@ def check_history(case, out):
     mini = State(Um, pm, Qm, None, raw.scalar)
     curve = build_from_state(mini)
     has_ins = has_elev = False
+    ninserted = 0
     for kind, arg in case["steps"]:
         cur = lib.state_of(curve)
         if kind == "insert":
-            nodes = resolve_nodes(arg, cur.U, cur.p)
+            nodes = resolve_nodes(arg, cur.U, cur.p)[: max(0, 6 - ninserted)]  # many small cases beat few large ones
+            ninserted += len(nodes)
             if nodes:
                 curve.knot_insert(nodes)
                 has_ins = True
         else:
-            if cur.p + arg <= 5:
+            if cur.p + arg <= 4:
                 curve.degree_increase(arg)
                 has_elev = True
     refined = lib.state_of(curve)
@@ -141,7 +162,7 @@ def check_history(case, out):
             f"pmin={pm}")
     out.nontrivial = has_ins and has_elev
     klass = "history;" + ("ins+elev" if has_ins and has_elev else "ins" if has_ins else "elev" if has_elev else "none")
-    run_cleans(curve, mini, case["cleans"], out, klass, (Um, pm, Qm))
+    run_cleans(curve, mini, case["cleans"], out, klass, (Um, pm, Qm), case.get("tol"))
     # a differently refined copy must clean to the identical representation
     if not out.failures and not out.excluded and "clean" in case["cleans"]:
         other = build_from_state(mini)
@@ -159,7 +180,7 @@ def arbitrary_cases(draw, nums=("frac",)):
     c = draw(gen.curves(0, 3, 3, nums=nums, rational=draw(st.integers(0, 3)) == 0,
                         values=st.sampled_from([F(0), F(1), F(1), F(2), F(-1), F(1, 2), F(3)])))
     cleans = draw(st.lists(st.sampled_from(["knot_clean", "degree_clean", "clean"]), min_size=1, max_size=3))
-    return {"curve": c, "cleans": cleans}
+    return {"curve": c, "cleans": cleans, "tol": draw(TOLS)}
 
 
 @st.composite
@@ -173,7 +194,7 @@ def special_cases(draw):
         Uhigh = sorted(Uhigh + [z])
     c, kind = draw(gen.special_rational(Ulow, plow, Uhigh, plow + t))
     cleans = draw(st.lists(st.sampled_from(["knot_clean", "degree_clean", "clean"]), min_size=1, max_size=3))
-    return {"curve": c, "cleans": cleans, "special": kind}
+    return {"curve": c, "cleans": cleans, "special": kind, "tol": draw(TOLS)}
 
 
 def check_arbitrary(case, out):
@@ -192,7 +213,8 @@ def check_arbitrary(case, out):
     out.cls(kind, "cleans=" + "+".join(case["cleans"]))
     if case.get("special"):
         out.cls("special=" + case["special"])
-    run_cleans(curve, ref, case["cleans"], out, "arbitrary;" + kind + (";" + case["special"] if case.get("special") else ""), minimal)
+    run_cleans(curve, ref, case["cleans"], out, "arbitrary;" + kind + (";" + case["special"] if case.get("special") else ""), minimal,
+               case.get("tol"))
 
 
 def check_float(case, out):
